@@ -328,7 +328,9 @@ def build(case):
             _ = la.polygon  # make the cached polygon exist
         return la
     if k == "post":
-        return scen.rand_sign(rng, 5) if rng.random() < 0.5 else scen.rand_light(rng, 6)
+        # a third of the posts stand at whole-number coordinates handed over as an integer array (never cast)
+        pos = np.array([rng.randint(-20, 40), rng.randint(-10, 10)]) if rng.random() < 0.33 else None
+        return scen.rand_sign(rng, 5, pos=pos) if rng.random() < 0.5 else scen.rand_light(rng, 6, pos=pos)
     if k == "obstacle":
         # trajectories that mix exact and uncertain states (growing uncertainty) need the uncertain stream
         unc = rng.random() < (0.6 if case.get("role") == "dynamic" else 0.3)
